@@ -3,6 +3,7 @@ package main
 import (
 	"fmt"
 	"math/rand"
+	"strconv"
 	"strings"
 	"time"
 
@@ -32,6 +33,13 @@ func c16Gen(r *rand.Rand, tier string) []spec.Case {
 			}
 		}
 	}
+	// the host's version list in every shape: what the plugin makes of it is C02's business, but whatever
+	// it is, the first thing on the real stdout is the handshake line and nothing else follows
+	for _, vs := range []string{"unset", "empty", "5,6", "0", "3", "1,x", "x", "1, 2", " 2", "2,,1", "-1", "99999999999999999999", "1,2,"} {
+		for _, st := range []string{"legacy", "versioned"} {
+			add(spec.C16Case{Cookie: "correct", CfgCookie: "normal", Proto: pick(r, []string{"netrpc", "grpc"}), TLS: pick(r, []string{"none", "provider", "clientcert"}), Sets: st, MuxEnv: pick(r, muxes), Versions: vs, Strace: tier == "thorough" || r.Intn(2) == 0})
+		}
+	}
 	for _, cc := range []string{"emptyKey", "emptyValue"} {
 		for _, ck := range []string{"correct", "unset", "empty"} {
 			add(spec.C16Case{Cookie: ck, CfgCookie: cc, Proto: pick(r, []string{"netrpc", "grpc"}), TLS: "none", Sets: "legacy", MuxEnv: "unset", Strace: true})
@@ -54,11 +62,11 @@ func c16Judge(c spec.Case, evs []spec.Event, d *Death) CaseResult {
 		return CaseResult{Verdict: "inconclusive", Inconcl: o.SetupErr}
 	}
 	res := CaseResult{Verdict: "held", Counters: map[string]int{}}
-	res.Class = fmt.Sprintf("cookie=%s cfg=%s %s tls=%s mux=%s traced=%v", p.Cookie, p.CfgCookie, p.Proto, p.TLS, p.MuxEnv, p.Strace)
+	res.Class = fmt.Sprintf("cookie=%s cfg=%s %s tls=%s mux=%s traced=%v versions=%q", p.Cookie, p.CfgCookie, p.Proto, p.TLS, p.MuxEnv, p.Strace, p.Versions)
 	res.Sample = map[string]any{"case": p, "exited": o.Exited, "exit_code": o.ExitCode, "stdout": trunc(string(o.Stdout), 120), "sockets": len(o.Sockets), "binds": o.Binds, "listen_before_line": o.ListenBefore, "writes_to_fd1": o.Stdout1Writes}
 	viol := func(key, msg string) {
 		res.Verdict = "violated"
-		res.Violations = append(res.Violations, Violation{Key: "C16:" + key, Msg: fmt.Sprintf("%s [cookie=%s cfgCookie=%s proto=%s tls=%s sets=%s muxEnv=%s] stdout=%q stderr=%q", msg, p.Cookie, p.CfgCookie, p.Proto, p.TLS, p.Sets, p.MuxEnv, trunc(string(o.Stdout), 150), trunc(o.StderrHead, 100))})
+		res.Violations = append(res.Violations, Violation{Key: "C16:" + key, Msg: fmt.Sprintf("%s [cookie=%s cfgCookie=%s proto=%s tls=%s sets=%s muxEnv=%s versions=%q] stdout=%q stderr=%q", msg, p.Cookie, p.CfgCookie, p.Proto, p.TLS, p.Sets, p.MuxEnv, p.Versions, trunc(string(o.Stdout), 150), trunc(o.StderrHead, 100))})
 	}
 	mustServe := p.Cookie == "correct" && p.CfgCookie == "normal"
 	if !mustServe {
@@ -107,7 +115,12 @@ func c16Judge(c spec.Case, evs []spec.Event, d *Death) CaseResult {
 		if p.Sets == "versioned" {
 			wantV = "2"
 		}
-		if parts[1] != wantV {
+		if p.Versions != "" {
+			// which version comes out of an odd list is decided by C02; here it only has to be a number
+			if _, err := strconv.Atoi(parts[1]); err != nil {
+				viol("version-field", "announced version is not a number: "+parts[1])
+			}
+		} else if parts[1] != wantV {
 			viol("version-field", fmt.Sprintf("announced version %s, want %s", parts[1], wantV))
 		}
 		if parts[2] != "unix" || parts[3] == "" {
